@@ -69,6 +69,8 @@ def build_ops(rng, spec):
 
 
 def run(res, replay=None):
+    # structural tie of phasegen/rewards.py: translate the CURRENT source and re-check proofs/GenRewardsEquiv.v against it
+    import translate_step; (res.proof is not None) and translate_step.run(res.proof, pid=res.pid, tie='rewards')
     rng = random.Random(res.seed)
     res.rule = ('sfs stream: random single-locus configurations (n<=4, thorough n<=5; 1-2 demes; three models; 1-3 epochs; '
                 'with/without end time; multiple-merger cases preceded in the same process by another parameterisation of the same model family), block-counting space: sfs.mean, fsfs.mean, sfs.var, sfs.m2, full sfs.cov and '
